@@ -152,22 +152,24 @@ PROPS = {
     },
     "C01": {
         "kani": [],
-        "verus": ["Q"],
-        "trusted_base": ["Verus 0.2026.09.13 + Z3 (unit Q: extracted run_all, process, process_event, resolve, receive, Drain::next, run_until_settled, spawn_new_tasks, is_done, poll_next)"],
+        "verus": ["Q", "X"],
+        "trusted_base": ["Verus 0.2026.09.13 + Z3 (unit Q: about 60 extracted functions of capability/{executor,channel,mod}.rs, core/mod.rs, command/{mod,executor,stream,context}.rs incl. the constructors; unit X: ShellStream::{send,poll_next}, ShellRequest::poll)"],
         "assumptions": [
             "crossbeam-channel unbounded channels used sequentially are FIFO queues: try_recv returns the head iff non-empty and removes it, send appends, is_empty reads (assumed contracts in verus/Q/unit.rs)",
             "everything that runs user code (polling a task's future, App::update, Request::resolve's continuation, join-handle wakers) is HAVOC on every queue restricted to appending to the event/effect queues; QueuingExecutor::run_task itself is extracted and proved",
             "sequential reading: between calls no executor slot is empty (QueuingExecutor::idle: no other thread is polling a task), so RunTask::Unavailable does not occur; C08 is not claimed",
             "the executor's task Mutex is erased to exclusive access (rule X4: &self -> &mut self up to Core::process_event/resolve)",
-            "CommandSpawner::spawn puts exactly one future on the executor's spawn queue (async forwarding loop not verified)",
+            "rule X17 (synchronous projection) for CommandSpawner::spawn's task body: `command.next().await` is an assumed call that logs what the hosted command yields and leaves the core's own queues alone (a legacy capability used inside a command task appends to them directly: not modelled); the `async move` block is read as the loop it runs when polled to its end",
+            "the hosting closures of Command::all/and and `|_ctx| ready(())` of Command::done are marked quiet (building the future sends nothing) by counted rules keyed to exactly those texts",
+            "unit X, future side: futures-mpsc receiver and Fuse<StreamFuture<_>> are assumed contracts; before a request is sent nothing can be in its private channel (its only sender lives in the unsent request)",
             "Iterator::collect over Drain is the loop `while let Some(x) = next() { push }` (rule X13), verified against the extracted Drain::next",
             "the core's channels are never disconnected while the Core exists (it owns a sender of each)",
             "locks are not poisoned; fewer than 2^32 executor tasks are alive (the code panics explicitly otherwise)",
             "partial correctness only: the loops need not terminate and no decreases clause is claimed",
         ],
         "not_decided": [
-            "that a task's effect actually enters the channel: CommandSpawner::spawn's forwarding loop and host() are async over futures adapters",
-            "nested hosting of commands; any schedule of resolutions (the proofs are per call, for any queue contents)",
+            "the futures adapters between the proved pieces: StreamExt::next / forward / map and host(); CommandSpawner's loop and CommandSink::start_send are proved, that `forward` calls start_send once per item is futures' contract",
+            "nested hosting of commands as a whole; any schedule of resolutions (the proofs are per call, for any queue contents)",
             "that tasks made runnable by the input are exactly the ones in the queues (wakers are user-visible objects: havoc)",
             "termination",
         ],
@@ -207,7 +209,7 @@ PROPS = {
     },
     "C07": {
         "kani": [],
-        "verus": ["Q"],
+        "verus": ["Q", "X"],
         "trusted_base": ["Verus 0.2026.09.13 + Z3 (unit Q: extracted Command::{run_task, run_until_settled, spawn_new_tasks, is_done} and Stream::poll_next)"],
         "assumptions": [
             "'something can still wake the task' is read as the code reads it: the task was woken during this poll, or a clone of THIS poll's waker survives; wakers handed out by earlier polls do not count. Whether that reading is exact for arbitrary futures (joins, selects, channels that keep old wakers) is a statement about all programs and is NOT decided",
@@ -216,7 +218,7 @@ PROPS = {
         ],
         "not_decided": [
             "exactness of the eviction heuristic over all futures (see assumptions)",
-            "'a request future whose channel closed stays pending without re-registering a waker' (command/context.rs:219-229: Fuse<StreamFuture<ShellStream>>, futures adapters)",
+            "'a request future whose channel closed stays pending without re-registering a waker' (command/context.rs:219-229): proved on the extracted ShellRequest::poll and ShellStream::poll_next (unit X) relative to an ASSUMED contract of futures' Fuse<StreamFuture<_>>::poll_unpin (poll the stream once unless completed; once completed answer Pending and touch nothing) and of the futures-mpsc receiver",
             "'a command whose tasks wait only on shell requests reports done once all have been resolved or dropped': needs the future side of requests",
         ],
     },
